@@ -406,7 +406,21 @@ func main() {
 		return
 	}
 	if warm {
-		os.Exit(doWarm(checks))
+		// only the integrated checks (enabled.txt); a failing warm-up build never fails setup
+		en := map[string]bool{}
+		if b, err := os.ReadFile(filepath.Join(verifRoot, "enabled.txt")); err == nil {
+			for _, id := range strings.Fields(string(b)) {
+				en[id] = true
+			}
+		}
+		var sel []Check
+		for _, c := range checks {
+			if len(en) == 0 || en[c.ID] {
+				sel = append(sel, c)
+			}
+		}
+		doWarm(sel)
+		os.Exit(0)
 	}
 	if len(ids) != 1 {
 		die(2, "usage: check <ID> [--tier quick|thorough] [--replay file] [--repo dir]")
@@ -542,6 +556,11 @@ func runCheck(c *Check, tier, replay string, keep bool, shardsOverride int) int 
 		}(i)
 	}
 	wg.Wait()
+	if os.Getenv("VERIF_VERBOSE") != "" {
+		for i, r := range results {
+			fmt.Printf("--- shard %d output ---\n%s\n", i, r.output)
+		}
+	}
 
 	merged := Report{Exhaustive: true, Counters: map[string]int64{}, Extra: map[string]any{}}
 	var errs []string
